@@ -206,6 +206,54 @@ def opCanC (j : Json) : Except String Json := do
       return Json.mkObj [("bits", e), ("names", Json.arr (ls.map fun l => Json.str (replaceColons l.name)).toArray),
         ("frames", Json.arr outs)]
 
+partial def styToJson : STy → Json
+  | .u n => Json.mkObj [("name", s!"u{n}"), ("type", "unsigned")]
+  | .i n => Json.mkObj [("name", s!"i{n}"), ("type", "signed")]
+  | .f32 => Json.mkObj [("name", "f32"), ("type", "float")]
+  | .f64 => Json.mkObj [("name", "f64"), ("type", "double")]
+  | .str => Json.mkObj [("type", "str")]
+  | .enum n => Json.mkObj [("name", n), ("type", "Enum")]
+  | .struct n => Json.mkObj [("name", n), ("type", "Struct")]
+  | .arr t n => Json.mkObj [("underlying_type", styToJson t), ("size", n), ("type", "Array")]
+  | .dyn t => Json.mkObj [("underlying_type", styToJson t), ("type", "DynamicArray")]
+  | .opt t => Json.mkObj [("underlying_type", styToJson t), ("type", "Optional")]
+
+def pairsToJson (kvs : List (String × XVal)) : Json :=
+  Json.arr (kvs.map fun (k, v) => Json.arr #[Json.str k, xvalToJson v]).toArray
+
+def treeToJson (t : Frontend.Tree) : Json :=
+  Json.mkObj [
+    ("structs", Json.arr (t.structs.map fun s => Json.mkObj [("name", s.name),
+      ("fields", Json.arr (s.fields.map fun f => Json.mkObj ([("name", Json.str f.name),
+        ("field_id", Json.num ⟨f.id, 0⟩), ("type", styToJson f.ty)]
+        ++ (match f.unit with | some u => [("unit", Json.str u)] | none => [])
+        ++ (match f.min with | some u => [("min_value", Json.str u)] | none => [])
+        ++ (match f.max with | some u => [("max_value", Json.str u)] | none => []))).toArray)]).toArray),
+    ("enums", Json.arr (t.enums.map fun e => Json.mkObj [("name", e.name),
+      ("enumeration", Json.arr (e.enumeration.map fun x => Json.mkObj [("name", x.name), ("value", Json.num ⟨x.value, 0⟩)]).toArray)]).toArray),
+    ("impls", Json.arr (t.impls.map fun i => Json.mkObj [("name", i.name), ("protocol", i.protocol), ("type", i.type),
+      ("fields", pairsToJson i.fields),
+      ("signals", Json.arr (i.signals.map fun sb => Json.mkObj [("name", sb.name), ("fields", pairsToJson sb.fields)]).toArray)]).toArray),
+    ("services", Json.arr (t.services.map fun s => Json.mkObj [("name", s.name), ("id", Json.num ⟨s.id, 0⟩),
+      ("methods", Json.arr (s.methods.map fun m => Json.mkObj [("name", m.name), ("id", Json.num ⟨m.id, 0⟩),
+        ("input", m.input), ("output", m.output)]).toArray)]).toArray),
+    ("devices", Json.arr (t.devices.map fun d => Json.mkObj [("name", d.name), ("fields", pairsToJson d.fields)]).toArray)]
+
+/-- parse: files = [[path components…], contents] pairs, root = path components -/
+def opParse (j : Json) : Except String Json := do
+  let fa ← j.getObjValAs? (Array Json) "files"
+  let fs : Frontend.FS ← fa.toList.mapM fun p => do
+    let q ← p.getArr?
+    if h : q.size = 2 then
+      let comps ← q[0].getArr?
+      return ((← comps.toList.mapM (·.getStr?)), ← q[1].getStr?)
+    else throw "bad file pair"
+  let root ← (← j.getObjValAs? (Array String) "root") |> pure
+  match Frontend.load fs root.toList with
+  | .ok t => return Json.mkObj [("ok", treeToJson t)]
+  | .error e => return Json.mkObj [("err", Json.arr (e.map fun m => Json.mkObj [("kind", m.kind), ("text", m.text),
+      ("file", optStrJson m.file), ("line", match m.line with | some l => Json.num ⟨(l : Int), 0⟩ | none => Json.null)]).toArray)]
+
 def opSched (j : Json) : Except String Json := do
   let periods ← j.getObjValAs? (Array Int) "periods"
   let times ← j.getObjValAs? (Array Nat) "times"
@@ -224,6 +272,7 @@ def dispatch (j : Json) : Except String Json := do
   | "dbc" => opDbc j
   | "gate" => opGate j
   | "canc" => opCanC j
+  | "parse" => opParse j
   | _ => throw s!"unknown op {op}"
 
 partial def loop (hin : IO.FS.Stream) (hout : IO.FS.Stream) : IO Unit := do
